@@ -5,6 +5,7 @@
 #include "../../../common/cb_verif_hook.h"
 #endif
 #include "../../../common/debug_messages.h"
+#include "../../../common/stack_guard.h"
 #include "../../../common/type_helpers.h"
 #include "../../../common/utf8_utils.h"
 #include "../../../frontend/recursive_parser/recursive_parser.h"
@@ -814,6 +815,9 @@ void Interpreter::process_ndim_array_literal(const ASTNode *literal_node,
 void Interpreter::execute_statement(const ASTNode *node) {
     if (!node)
         return;
+
+    // nested statements and function bodies recurse through here
+    StackGuard::check();
 
     // ASTNodeTypeが異常な値でないことを確認
     int node_type_int = static_cast<int>(node->node_type);
